@@ -239,11 +239,28 @@ def agentList (a : Agent) : Agent × Option (List AIdent) :=
   let (a1, go) := a.tick
   if !go then (a1, none) else (a1, some a1.idents)
 
+/-- x/crypto keyring `removeLocked`: walk the slice; every entry that matches is overwritten by
+    the current last entry and the slice shrinks by one (the same index is examined again).
+    The order of the remaining entries therefore changes — and with it the order in which a later
+    refresh asks for removals. -/
+def swapRemoveAll {α} (p : α → Bool) : Nat → Nat → List α → List α
+  | 0, _, l => l
+  | fuel + 1, i, l =>
+    match l[i]? with
+    | none => l
+    | some x =>
+      if p x then
+        match l.getLast? with
+        | none => l
+        | some last => swapRemoveAll p fuel i ((l.set i last).dropLast)
+      else swapRemoveAll p fuel (i + 1) l
+
 def agentRemove (a : Agent) (id : AIdent) : Agent × Bool :=
   let (a1, go) := a.tick
   if !go then (a1, false)
   else if a1.idents.any (fun x => x.key = id.key && x.cert = id.cert) then
-    ({ a1 with idents := a1.idents.filter fun x => !(x.key = id.key && x.cert = id.cert) }, true)
+    let rest := swapRemoveAll (fun x => x.key = id.key && x.cert = id.cert) (2 * a1.idents.length + 1) 0 a1.idents
+    ({ a1 with idents := rest }, true)
   else (a1, false)
 
 /-- `(*Handler).Authenticate` of the regular handler: `none` = nil -/
